@@ -236,6 +236,7 @@ namespace vg {
         void request( int c, const bytes& in, const bytes& out, std::size_t given )
         {
             const std::uint8_t op = in[ 0 ];
+            lim = std::min< int >( static_cast< int >( given ), mtu_before );
             framing( c, in, out, given );
             leak_check( c, out, "response" );
             switch ( op )
@@ -305,6 +306,7 @@ namespace vg {
         }
 
         int mtu_before = 23;   // negotiated MTU when the request was handed to the server
+        int lim        = 23;   // min( buffer given to the server, negotiated MTU ) for the running request
 
         // C05: no protected value may appear in anything sent over an unencrypted link
         void leak_check( int c, const bytes& out, const char* what )
@@ -529,7 +531,7 @@ namespace vg {
                 require( s == RS_OK, "c06.permission", "Read By Type ", verif::hex( in ), " returned attribute ", h, " which is not readable" );
                 const std::size_t n = L - 2;
                 require( n <= v.size() || ( n == v.size() ), "c06.read-value", "Read By Type returned ", n, " value bytes for attribute ", h, " whose value has ", v.size() );
-                require( n == v.size() || static_cast< int >( n ) == std::min( 253, mtu( c ) - 4 ), "c06.read-value", "Read By Type: value of attribute ", h, " has ", v.size(),
+                require( n == v.size() || static_cast< int >( n ) == std::min( 253, lim - 4 ), "c06.read-value", "Read By Type: value of attribute ", h, " has ", v.size(),
                     " bytes, tuple carries ", n, " (only a value longer than the room may be cut)" );
                 require( std::equal( out.begin() + p + 2, out.begin() + p + L, v.begin() ), "c06.read-value", "Read By Type: value of attribute ", h, " is ", verif::hex( v ),
                     " but the response carries ", verif::hex( &out[ p + 2 ], n ) );
@@ -537,7 +539,7 @@ namespace vg {
                 {
                     bytes vv;
                     if ( read_attr( M[ mi ], c, vv ) == RS_OK )
-                        skipped( "Read By Type", in, db.attrs[ M[ mi ] ].handle, std::min< std::size_t >( vv.size(), std::min( 253, mtu( c ) - 4 ) ) != n );
+                        skipped( "Read By Type", in, db.attrs[ M[ mi ] ].handle, std::min< std::size_t >( vv.size(), std::min( 253, lim - 4 ) ) != n );
                     ++mi;
                 }
                 ++mi;
@@ -691,7 +693,7 @@ namespace vg {
                 return;
             }
             bytes exp{ 0x0b };
-            exp.insert( exp.end(), v.begin(), v.begin() + std::min< std::size_t >( v.size(), mtu( c ) - 1 ) );
+            exp.insert( exp.end(), v.begin(), v.begin() + std::min< std::size_t >( v.size(), lim - 1 ) );
             const char* oracle = db.attrs[ ai ].kind == A_VALUE ? "c06.read-value" : ( db.attrs[ ai ].kind == A_CCCD ? "c09.read-back" : "c04.attribute-value" );
             require( out == exp, oracle, "Read Request on handle ", h, " (attribute kind ", db.attrs[ ai ].kind, ") must return ", verif::hex( exp ), ", got ", verif::hex( out ) );
         }
@@ -732,7 +734,7 @@ namespace vg {
                 return;
             }
             bytes exp{ 0x0d };
-            exp.insert( exp.end(), v.begin() + off, v.begin() + off + std::min< std::size_t >( v.size() - off, mtu( c ) - 1 ) );
+            exp.insert( exp.end(), v.begin() + off, v.begin() + off + std::min< std::size_t >( v.size() - off, lim - 1 ) );
             if ( strict )
                 require( out == exp, "c06.read-value", "Read Blob on handle ", h, " offset ", off, " must return ", verif::hex( exp ), ", got ", verif::hex( out ) );
             else
@@ -773,8 +775,8 @@ namespace vg {
                 }
                 exp.insert( exp.end(), v.begin(), v.end() );
             }
-            if ( static_cast< int >( exp.size() ) > mtu( c ) )
-                exp.resize( mtu( c ) );
+            if ( static_cast< int >( exp.size() ) > lim )
+                exp.resize( lim );
             require( out == exp, "c06.read-value", "Read Multiple ", verif::hex( in ), " must return ", verif::hex( exp ), ", got ", verif::hex( out ) );
         }
 
@@ -1067,8 +1069,8 @@ namespace vg {
             }
             bytes exp = in;
             exp[ 0 ]  = 0x17;
-            if ( static_cast< int >( exp.size() ) > mtu( c ) )
-                exp.resize( mtu( c ) );
+            if ( static_cast< int >( exp.size() ) > lim )
+                exp.resize( lim );
             require_sig( out == exp, "c07.accept", verif::cat( "kind=", db.attrs[ ai ].kind, " enc=", db.attrs[ ai ].chr >= 0 ? db.chrs[ db.attrs[ ai ].chr ].enc : 0 ),
                 "Prepare Write ", verif::hex( in ), " on handle ", h, " (a Write Request would be permitted, queue free) must be echoed, got ", verif::hex( out ) );
             queue_owner = c;
@@ -1085,11 +1087,9 @@ namespace vg {
             if ( in.size() != 2 || in[ 1 ] > 1 )
             {
                 require( is_error( out, 0x18 ), "c07.flags", "malformed Execute Write ", verif::hex( in ), " must be rejected, got ", verif::hex( out ) );
-                // whether a malformed execute releases the queue is not specified: follow the server on the next prepare
+                // whether a malformed execute releases the queue is not specified: the model can not follow any further
                 if ( queue_owner == c )
-                {
-                    queue_owner = -2;  // unknown
-                }
+                    throw Diverged{ "malformed Execute Write by the owner of the queue: state of the queue is unspecified" };
                 return;
             }
             if ( queue_owner == -2 )
